@@ -166,7 +166,12 @@ def run_racing(ctx):
             tg.step()
             state["progress"] += 1
             if state["snapshots"] is not None and state["rec"] is not None:
-                state["snapshots"].append(entered_managers(state["rec"]) if not state["rec"].done_frame() else ())
+                # a frame that is off every thread's stack is either finished (no
+                # blocks at all) or the suspended frame of a generator (its
+                # blocks as the shadow says): both are positions it can be seen in
+                state["snapshots"].append(entered_managers(state["rec"]))
+                if state["rec"].done_frame():
+                    state["snapshots"].append(())
         events.append((names.get(id(code), "?"), kind, c))
         ctx.stat("preempt_yields")
         ctx.cover(("race", observe.PY, names.get(id(code), "?"), kind, min(c, 3), tg.done))
